@@ -71,12 +71,23 @@ class Check(AddCheck):
             'distinct by (class, #carried, target position, outcome)')
 
     def gen(self, tier, rng):
+        yield from gens.merge_cases_decoy_payload()
         n = 150 if tier == 'quick' else 1500
         depth = 4 if tier == 'quick' else 7
         for r in range(n):
             sids = gens.STORY_IDS[:rng.randrange(1, 5)]
             ro = to_text(gens.make_ro(sids, layout=rng.choice(gens.RO_LAYOUTS), para_layout=rng.choice(gens.PARA_LAYOUTS),
                                       timing=rng.choice(gens.TIMINGS)))
+            if rng.random() < 0.5:
+                # attributes and text on the roCreate element itself: after roReplace the content is the sent one, nothing else
+                from xml.etree import ElementTree as ET_
+                d_ = ET_.fromstring(ro)
+                rc_ = d_.find('roCreate')
+                rc_.set('channel', 'A')
+                rc_.set('rev', '1')
+                if rc_.text is None and rng.random() < 0.5:
+                    rc_.text = '\n  '
+                ro = ET_.tostring(d_, encoding='unicode')
             tgt = rng.choice(sids + [None])
             its = gens.ITEM_IDS[:2]
             itgt = rng.choice(its + [None])
@@ -115,7 +126,11 @@ class Check(AddCheck):
             if rng.random() < 0.3:
                 sb.text, sb.tail = '\n  ', ' after body '
             docs.append(ss)
-            docs.append(ro_replace(mid, [rich_story(rng, 'R%d' % j, 2) for j in range(rng.randrange(0, 3))] + [deep(rng, 2)]))
+            rr = ro_replace(mid, [rich_story(rng, 'R%d' % j, 2) for j in range(rng.randrange(0, 3))] + [deep(rng, 2)])
+            if rng.random() < 0.5:
+                rr[3].set('rev', '2')                # an attribute on roReplace (same name as one on roCreate) and leading text
+                rr[3].text = rng.choice([None, ' lead '])
+            docs.append(rr)
             docs.append(metadata_replace(mid, [E('roSlug', text=rng.choice(SPECIAL)), deep(rng, 3),
                                                E('mosExternalMetadata', E('mosSchema', text='http://schema/ro'), E('mosPayload', deep(rng, 3)))]))
             for d in docs:
